@@ -92,3 +92,20 @@ impl InnerFunctionManager {
         Ok(ans.unwrap().clone())
     }
 }
+
+#[cfg(feature = "verif_hooks")]
+impl InnerFunctionManager {
+    pub fn verif_entries(&self) -> Vec<(String, usize)> {
+        let binding = self.store.lock().unwrap();
+        let mut ans: Vec<_> = binding
+            .iter()
+            .map(|(name, f)| (name.clone(), Arc::as_ptr(f) as *const () as usize))
+            .collect();
+        ans.sort();
+        ans
+    }
+
+    pub fn verif_clear(&self) {
+        self.store.lock().unwrap().clear();
+    }
+}
